@@ -12,7 +12,7 @@ from pysmt.environment import push_env, pop_env
 from ..core.runner import Result
 from ..core import histworld as H
 
-ALL = ["F%d" % i for i in range(1, 21)]
+ALL = ["F%d" % i for i in range(1, 23)]
 _REF = {}
 
 
